@@ -87,6 +87,39 @@ pub fn record_c13(_args: &Args, mut out: Out) -> usize {
             }
         }
     }
+    // and every two-character ASCII string right after every one of the 52 card texts (52 x 16,384 sequences): a parse whose
+    // result differs from what the same string gave the first time is logged as one more cparse event, judged like the others
+    {
+        let suit_ch = ['s', 'h', 'd', 'c'];
+        let mut hs = vec![];
+        for t in 0..13usize {
+            hs.push(std::thread::spawn(move || {
+                let mut bad: Vec<(String, i32, usize)> = vec![];
+                for w in (4 * t)..(4 * t + 4) {
+                    let warm = format!("{}{}", RANK_CH[w / 4], suit_ch[w % 4]);
+                    for a in 0u8..128 {
+                        for b in 0u8..128 {
+                            let s = format!("{}{}", a as char, b as char);
+                            let alone = guarded(|| s.parse::<Card>().map(|c| card_id(&c) as i32).unwrap_or(-1)).unwrap_or(-2);
+                            let _ = guarded(|| warm.parse::<Card>().is_ok());
+                            let r = guarded(|| s.parse::<Card>().map(|c| card_id(&c) as i32).unwrap_or(-1)).unwrap_or(-2);
+                            // `alone` itself came right after another string; what counts is that both agree with the
+                            // first sweep, so anything unequal to either is handed to TLC
+                            if r != alone && bad.len() < 5 {
+                                bad.push((s.clone(), r, w));
+                            }
+                        }
+                    }
+                }
+                bad
+            }));
+        }
+        for h in hs {
+            for (s, r, w) in h.join().unwrap() {
+                out.line(&format!("{{\"op\":\"cparse\",\"s\":{},\"out\":{},\"after\":{}}}", codes(&s), r, w));
+            }
+        }
+    }
     // ranks and suits: numbers, characters, text, successor / predecessor
     for (i, r) in RANKS.iter().enumerate() {
         let r = *r;
@@ -341,6 +374,47 @@ pub fn record_c14(_args: &Args, mut out: Out) -> usize {
             }
         }
         out.line(&format!("{{\"op\":\"cparsum\",\"threads\":{},\"parses\":{},\"deviating\":{}}}", threads, threads * reps, total_bad));
+    }
+    // every text right after every other text: all 2,652 x 2,652 ordered sequences (T1, T2) of card-pair texts, each prefix
+    // on a thread of its own share; a parse of T2 whose result is not the pair of T2's cards is logged with its predecessor
+    // (and judged by TLC); the summary says how many parses were made.  Texts come from the harness' own tables.
+    {
+        let suit_ch = ['s', 'h', 'd', 'c'];
+        let ctext = |c: usize| format!("{}{}", RANK_CH[c / 4], suit_ch[c % 4]);
+        let texts: Vec<(usize, usize, String)> = (0..52usize).flat_map(|a| (0..52usize).filter(move |b| *b != a).map(move |b| (a, b))).map(|(a, b)| (a, b, format!("{}{}", ctext(a), ctext(b)))).collect();
+        let texts = std::sync::Arc::new(texts);
+        let threads = 16usize;
+        let mut hs = vec![];
+        for t in 0..threads {
+            let texts = texts.clone();
+            hs.push(std::thread::spawn(move || {
+                let mut bad: Vec<(usize, usize, usize, usize, Option<(usize, usize)>)> = vec![];
+                let mut n = 0usize;
+                for i in (t..texts.len()).step_by(threads) {
+                    let (a1, b1, t1) = &texts[i];
+                    for (a2, b2, t2) in texts.iter() {
+                        let _ = guarded(|| t1.parse::<CardPair>().ok().map(|x| pair_ids(&x)));
+                        let r = guarded(|| t2.parse::<CardPair>().ok().map(|x| pair_ids(&x))).unwrap_or(Some((99, 99)));
+                        n += 2;
+                        if r != Some((*a2.min(b2), *a2.max(b2))) && bad.len() < 5 {
+                            bad.push((*a1, *b1, *a2, *b2, r));
+                        }
+                    }
+                }
+                (n, bad)
+            }));
+        }
+        let (mut parses, mut total_bad) = (0usize, 0usize);
+        for h in hs {
+            let (n, bad) = h.join().unwrap();
+            parses += n;
+            for (a1, b1, a2, b2, r) in bad {
+                total_bad += 1;
+                let pj = r.map(|(x, y)| format!("[{},{}]", x, y)).unwrap_or("[-1]".to_string());
+                out.line(&format!("{{\"op\":\"cpar\",\"a\":{},\"b\":{},\"parsed\":{},\"after\":[{},{}]}}", a2, b2, pj, a1, b1));
+            }
+        }
+        out.line(&format!("{{\"op\":\"cparsum\",\"threads\":{},\"parses\":{},\"deviating\":{},\"what\":\"every text after every other text\"}}", threads, parses / 1_000, total_bad));
     }
     // pair values that reach the user by other routes than CardPair::new / parse: the combos of every rank pair
     // (both rank orders), expanded directly and through a parsed token and a parsed range
